@@ -27,7 +27,7 @@ def _gate(tok):
         return
     one, allg = os.path.join(g, gate_name(tok)), os.path.join(g, "ALL.go")
     while not (os.path.exists(one) or os.path.exists(allg)):
-        time.sleep(0.002)
+        time.sleep(0.005)
 
 
 @python.define(outputs=["out"])
